@@ -1,4 +1,5 @@
 import ShootVerif.Proofs.RestParse
+import ShootVerif.Proofs.Rest
 /-!
 The remaining recognisers of cook.go against declarative specifications: what a directive WRITTEN
 in the documented form means is what the recogniser reads (render ↦ parse = identity), for
@@ -148,9 +149,9 @@ theorem matchAliasAt_render (g tail rest : List Char) (hne : g ≠ [])
     (ht : tail = [] ∨ ∃ t, tail = ';' :: t) :
     matchAliasAt (shootColon ++ ' ' :: (aliasEq ++ g ++ tail ++ '\n' :: rest)) = some g := by
   have e1 : stripPrefix shootColon (shootColon ++ ' ' :: (aliasEq ++ g ++ tail ++ '\n' :: rest))
-      = some (' ' :: (aliasEq ++ g ++ tail ++ '\n' :: rest)) := stripPrefix_self_append' _ _
+      = some (' ' :: (aliasEq ++ g ++ tail ++ '\n' :: rest)) := stripPrefix_self_append _ _
   have e2 : stripPrefix aliasEq (aliasEq ++ g ++ tail ++ '\n' :: rest) = some (g ++ tail ++ '\n' :: rest) := by
-    have := stripPrefix_self_append' aliasEq (g ++ tail ++ '\n' :: rest)
+    have := stripPrefix_self_append aliasEq (g ++ tail ++ '\n' :: rest)
     simpa [List.append_assoc] using this
   have hsp : isWord ' ' = false := by decide
   have e3 : (g ++ tail ++ '\n' :: rest).takeWhile (fun c => c != ';' && c != '\n') = g := by
@@ -188,81 +189,63 @@ theorem firstAtLineStart_skip {α : Type} (f : List Char → Option α) (l d : L
     simp only [List.cons_append, firstAtLineStart, ↓reduceIte, hf, hc]
     exact inner cs (fun x hx => hl x (by simp [hx]))
 
-/-- the declarative specification of `parseAlias`: after any lines at which the alias pattern does
-    not match (`before`, e.g. the request directive), a line `shoot: alias={p₁:a₁},{p₂:a₂}…` with an
-    optional `;…` tail means the pairs (pᵢ, aᵢ) -/
-theorem parseAlias_render (before : List (List Char)) (gs : List ((List Char × List Char) × List Char))
-    (tail rest : List Char)
+theorem renderGroups_ne_nil (gs : List ((List Char × List Char) × List Char)) (hne : gs ≠ []) :
+    renderGroups gs ≠ [] := by
+  cases gs with
+  | nil => exact absurd rfl hne
+  | cons g gs' => obtain ⟨kv, j⟩ := g; simp [renderGroups, renderKV]
+
+/-- characters of a rendered group list: those of its keys, values, separators, and `{` `:` `}` -/
+theorem renderGroups_chars (gs : List ((List Char × List Char) × List Char)) (q : Char → Prop)
+    (hq : q '{' ∧ q ':' ∧ q '}')
+    (hk : ∀ g ∈ gs, ∀ c ∈ g.1.1, q c) (hv : ∀ g ∈ gs, ∀ c ∈ g.1.2, q c) (hj : ∀ g ∈ gs, ∀ c ∈ g.2, q c) :
+    ∀ c ∈ renderGroups gs, q c := by
+  induction gs with
+  | nil => intro c hc; cases hc
+  | cons g gs' ih =>
+    obtain ⟨⟨k, v⟩, j⟩ := g
+    intro c hc
+    simp only [renderGroups, renderKV, List.mem_append, List.mem_cons, List.not_mem_nil, or_false] at hc
+    rcases hc with ((hc | hc | hc | hc | hc) | hc) | hc
+    · subst hc; exact hq.1
+    · exact hk ((k, v), j) (by simp) c hc
+    · subst hc; exact hq.2.1
+    · exact hv ((k, v), j) (by simp) c hc
+    · subst hc; exact hq.2.2
+    · exact hj ((k, v), j) (by simp) c hc
+    · exact ih (fun x hx => hk x (by simp [hx])) (fun x hx => hv x (by simp [hx]))
+        (fun x hx => hj x (by simp [hx])) c hc
+
+theorem keyChar_props (k : List Char) (hk : CleanKey k) : ∀ c ∈ k, c ≠ ';' ∧ c ≠ '\n' := by
+  intro c hc
+  have := hk.2 c hc
+  constructor <;> (intro e; subst e; simp [isKeyChar, isWord] at this)
+
+/-- the declarative specification of `parseAlias`, the directive on the first line: a line
+    `shoot: alias={p₁:a₁},{p₂:a₂}…` with an optional `;…` tail means the pairs (pᵢ, aᵢ) -/
+theorem parseAlias_render (gs : List ((List Char × List Char) × List Char)) (tail rest : List Char)
     (hg : GroupsClean gs) (hne : gs ≠ [])
     (hsep : ∀ g ∈ gs, ∀ c ∈ g.2, c ≠ ';' ∧ c ≠ '\n')
     (hval : ∀ g ∈ gs, ∀ c ∈ g.1.2, c ≠ ';')
-    (hkey : ∀ g ∈ gs, ∀ c ∈ g.1.1, c ≠ ';')
-    (ht : tail = [] ∨ ∃ t, tail = ';' :: t)
-    (doc : List Char)
-    (hdoc : doc = (before.map (· ++ ['\n'])).flatten ++
-      (shootColon ++ ' ' :: (aliasEq ++ renderGroups gs ++ tail ++ '\n' :: rest)))
-    (hbefore : ∀ (i : Nat) (hi : i < before.length),
-      (∀ c ∈ before[i], c ≠ '\n') ∧
-      matchAliasAt (before[i] ++ '\n' :: (((before.drop (i + 1)).map (· ++ ['\n'])).flatten ++
-        (shootColon ++ ' ' :: (aliasEq ++ renderGroups gs ++ tail ++ '\n' :: rest)))) = none) :
-    parseAlias doc = some (gs.map (·.1)) := by
-  subst hdoc
-  have hgne : renderGroups gs ≠ [] := by
-    cases gs with
-    | nil => exact absurd rfl hne
-    | cons g gs' => obtain ⟨kv, j⟩ := g; simp [renderGroups, renderKV]
-  have hgc : ∀ c ∈ renderGroups gs, c ≠ ';' ∧ c ≠ '\n' := by
-    clear hne hgne hbefore
-    induction gs with
-    | nil => intro c hc; cases hc
-    | cons g gs' ih =>
-      obtain ⟨⟨k, v⟩, j⟩ := g
-      intro c hc
-      simp only [renderGroups, renderKV, List.mem_append, List.mem_cons, List.mem_singleton, List.not_mem_nil,
-        or_false] at hc
-      obtain ⟨hk, hv, _⟩ := hg ((k, v), j) (by simp)
-      rcases hc with ((hc | hc | hc | hc | hc) | hc) | hc
-      · subst hc; exact ⟨by decide, by decide⟩
-      · refine ⟨hkey ((k, v), j) (by simp) c hc, ?_⟩
-        intro e; subst e
-        have := hk.2 _ hc
-        simp [isKeyChar, isWord] at this
-      · subst hc; exact ⟨by decide, by decide⟩
-      · exact ⟨hval ((k, v), j) (by simp) c hc, hv.2.2 c hc⟩
-      · subst hc; exact ⟨by decide, by decide⟩
-      · exact hsep ((k, v), j) (by simp) c hc
-      · exact ih (fun x hx => hg x (by simp [hx])) (fun x hx => hsep x (by simp [hx]))
-          (fun x hx => hval x (by simp [hx])) (fun x hx => hkey x (by simp [hx])) c hc
-  have hfinal : firstAtLineStart matchAliasAt true
-      (shootColon ++ ' ' :: (aliasEq ++ renderGroups gs ++ tail ++ '\n' :: rest)) = some (renderGroups gs) :=
-    firstAtLineStart_here _ _ _ (matchAliasAt_render (renderGroups gs) tail rest hgne hgc ht)
-  have hskip : ∀ (k : Nat), k ≤ before.length →
-      firstAtLineStart matchAliasAt true ((((before.drop (before.length - k)).map (· ++ ['\n'])).flatten) ++
-        (shootColon ++ ' ' :: (aliasEq ++ renderGroups gs ++ tail ++ '\n' :: rest))) = some (renderGroups gs) := by
-    intro k
-    induction k with
-    | zero => intro _; simpa using hfinal
-    | succ k ih =>
-      intro hk
-      have hi : before.length - (k + 1) < before.length := by omega
-      obtain ⟨hnl, hnone⟩ := hbefore _ hi
-      have hd : before.drop (before.length - (k + 1))
-          = before[before.length - (k + 1)] :: before.drop (before.length - (k + 1) + 1) := by
-        rw [List.drop_eq_getElem_cons hi]
-      have he : before.length - (k + 1) + 1 = before.length - k := by omega
-      rw [hd, he]
-      simp only [List.map_cons, List.flatten_cons, List.append_assoc, List.singleton_append]
-      rw [he] at hnone
-      rw [firstAtLineStart_skip _ _ _ hnl (by simpa [List.append_assoc] using hnone)]
-      have := ih (by omega)
-      simpa [List.append_assoc] using this
-  have := hskip before.length (Nat.le_refl _)
-  simp only [Nat.sub_self, List.drop_zero] at this
+    (ht : tail = [] ∨ ∃ t, tail = ';' :: t) :
+    parseAlias (shootColon ++ ' ' :: (aliasEq ++ renderGroups gs ++ tail ++ '\n' :: rest)) = some (gs.map (·.1)) := by
+  have hgc : ∀ c ∈ renderGroups gs, c ≠ ';' ∧ c ≠ '\n' :=
+    renderGroups_chars gs (fun c => c ≠ ';' ∧ c ≠ '\n') ⟨⟨by decide, by decide⟩, ⟨by decide, by decide⟩, ⟨by decide, by decide⟩⟩
+      (fun g hgm => keyChar_props g.1.1 (hg g hgm).1)
+      (fun g hgm c hc => ⟨hval g hgm c hc, (hg g hgm).2.1.2.2 c hc⟩)
+      hsep
   unfold parseAlias
-  rw [this]
+  rw [firstAtLineStart_here _ _ _ (matchAliasAt_render (renderGroups gs) tail rest (renderGroups_ne_nil gs hne) hgc ht)]
   simp only [Option.map_some, Option.some.injEq]
   have := parseKV_render [] gs (by intro c hc; cases hc) hg
   simpa using this
+
+/-- … and on a later line: a line at which the alias pattern does not match (e.g. the request
+    directive) is passed over -/
+theorem parseAlias_skip_line (l d : List Char) (hl : ∀ c ∈ l, c ≠ '\n')
+    (hf : matchAliasAt (l ++ '\n' :: d) = none) : parseAlias (l ++ '\n' :: d) = parseAlias d := by
+  unfold parseAlias
+  rw [firstAtLineStart_skip _ _ _ hl hf]
 
 /-! ### parseFieldAlias -/
 
@@ -278,11 +261,18 @@ theorem parseFieldAlias_render (pre w rest : List Char) (hpre : ∀ c ∈ pre, c
   unfold parseFieldAlias
   have hmain : findFieldAlias (aliasEq ++ w ++ rest) = some w := by
     have e1 : stripPrefix aliasEq (aliasEq ++ w ++ rest) = some (w ++ rest) := by
-      have := stripPrefix_self_append' aliasEq (w ++ rest)
+      have := stripPrefix_self_append aliasEq (w ++ rest)
       simpa [List.append_assoc] using this
     have e2 : (w ++ rest).takeWhile isWord = w := by
       cases rest with
-      | nil => simp only [List.append_nil]; exact List.takeWhile_eq_self_iff.2 (fun c hc => hw.2 c hc) |> fun h => h
+      | nil =>
+        simp only [List.append_nil]
+        have : ∀ (l : List Char), (∀ c ∈ l, isWord c = true) → l.takeWhile isWord = l := by
+          intro l hl
+          induction l with
+          | nil => rfl
+          | cons x xs ih => simp [List.takeWhile_cons, hl x (by simp), ih (fun y hy => hl y (by simp [hy]))]
+        exact this w hw.2
       | cons r rs => exact takeWhile_append_stop w r rs hw.2 (hrest r (by simp))
     have e0 : aliasEq ++ w ++ rest = 'a' :: (['l', 'i', 'a', 's', '='] ++ w ++ rest) := by simp [aliasEq]
     rw [e0, findFieldAlias, ← e0, e1]
@@ -297,5 +287,298 @@ theorem parseFieldAlias_render (pre w rest : List Char) (hpre : ∀ c ∈ pre, c
     simp only [List.cons_append, List.append_assoc, findFieldAlias, stripPrefix_aliasEq_none c _ hc]
     have := ih (fun x hx => hpre x (by simp [hx]))
     simpa [List.append_assoc] using this
+
+/-! ### parseHeaders, one line and continued over several lines -/
+
+/-- the junk after a group inside a header line: no brace, no newline -/
+def InLineJunk (j : List Char) : Prop := ∀ c ∈ j, c ≠ '{' ∧ c ≠ '}' ∧ c ≠ '\n'
+
+/-- a header line: its groups; the text after the last `}` is nothing or a comma -/
+structure HLineOK (gs : List ((List Char × List Char) × List Char)) : Prop where
+  ne : gs ≠ []
+  clean : GroupsClean gs
+  junk : ∀ g ∈ gs, InLineJunk g.2
+  last : ∀ g, gs.getLast? = some g → g.2 = [] ∨ g.2 = [',']
+
+/-- a rendered header line is `{ inner } lastJunk` with the LAST `}` of the line made explicit -/
+theorem line_decompose (gs : List ((List Char × List Char) × List Char)) (h : HLineOK gs) :
+    ∃ inner lastJ, renderGroups gs = '{' :: (inner ++ '}' :: lastJ) ∧ inner ≠ [] ∧
+      (∀ c ∈ inner, c ≠ '\n') ∧ (lastJ = [] ∨ lastJ = [',']) := by
+  obtain ⟨hne, hclean, hjunk, hlast⟩ := h
+  induction gs with
+  | nil => exact absurd rfl hne
+  | cons g gs' ih =>
+    obtain ⟨⟨k, v⟩, j⟩ := g
+    obtain ⟨hk, hv, _⟩ := hclean ((k, v), j) (by simp)
+    have hknl : ∀ c ∈ k, c ≠ '\n' := fun c hc => (keyChar_props k hk c hc).2
+    have hkne : k ≠ [] := hk.1
+    cases gs' with
+    | nil =>
+      refine ⟨k ++ ':' :: v, j, by simp [renderGroups, renderKV], by simp, ?_, hlast ((k, v), j) (by simp)⟩
+      intro c hc
+      simp only [List.mem_append, List.mem_cons] at hc
+      rcases hc with hc | hc | hc
+      · exact hknl c hc
+      · subst hc; decide
+      · exact hv.2.2 c hc
+    | cons g2 gs2 =>
+      have h' : (g2 :: gs2) ≠ [] := by simp
+      obtain ⟨inner', lastJ, he, _, hnl', hl'⟩ := ih h' (fun x hx => hclean x (by simp [hx]))
+        (fun x hx => hjunk x (by simp [hx]))
+        (fun x hx => hlast x (by rw [List.getLast?_cons_cons]; exact hx))
+      refine ⟨k ++ ':' :: (v ++ '}' :: (j ++ '{' :: inner')), lastJ, ?_, by simp, ?_, hl'⟩
+      · simp only [renderGroups] at he ⊢
+        rw [he]; simp [renderKV]
+      · intro c hc
+        simp only [List.mem_append, List.mem_cons] at hc
+        rcases hc with hc | hc | hc | hc | hc | hc | hc
+        · exact hknl c hc
+        · subst hc; decide
+        · exact hv.2.2 c hc
+        · subst hc; decide
+        · exact (hjunk ((k, v), j) (by simp) c hc).2.2
+        · subst hc; decide
+        · exact hnl' c hc
+
+/-- one round of the headers group consumes exactly one rendered line (with the blanks before it) -/
+theorem hdrIter_line (W more : List Char) (gs : List ((List Char × List Char) × List Char))
+    (hW : ∀ c ∈ W, isReSpace c = true) (h : HLineOK gs) :
+    hdrIter (W ++ renderGroups gs ++ '\n' :: more) = some (W ++ renderGroups gs, '\n' :: more) := by
+  obtain ⟨inner, lastJ, he, hine, hnl, hl⟩ := line_decompose gs h
+  rw [he]
+  have hb : isReSpace '{' = false := by decide
+  have e0 : W ++ '{' :: (inner ++ '}' :: lastJ) ++ '\n' :: more
+      = W ++ '{' :: (inner ++ '}' :: (lastJ ++ '\n' :: more)) := by simp
+  rw [e0]
+  have e1 : (W ++ '{' :: (inner ++ '}' :: (lastJ ++ '\n' :: more))).dropWhile isReSpace
+      = '{' :: (inner ++ '}' :: (lastJ ++ '\n' :: more)) := dropWhile_append_stop W '{' _ hW hb
+  have e2 : (W ++ '{' :: (inner ++ '}' :: (lastJ ++ '\n' :: more))).takeWhile isReSpace = W :=
+    takeWhile_append_stop W '{' _ hW hb
+  have hlnl : ∀ c ∈ inner ++ '}' :: lastJ, c ≠ '\n' := by
+    intro c hc
+    simp only [List.mem_append, List.mem_cons] at hc
+    rcases hc with hc | hc | hc
+    · exact hnl c hc
+    · subst hc; decide
+    · rcases hl with rfl | rfl
+      · cases hc
+      · simp at hc; subst hc; decide
+  have e3 : (inner ++ '}' :: (lastJ ++ '\n' :: more)).takeWhile (· != '\n') = inner ++ '}' :: lastJ := by
+    have : inner ++ '}' :: (lastJ ++ '\n' :: more) = (inner ++ '}' :: lastJ) ++ '\n' :: more := by simp
+    rw [this]; exact takeWhile_line _ more hlnl
+  have e4 : (inner ++ '}' :: lastJ).reverse.dropWhile (· != '}') = '}' :: inner.reverse := by
+    rcases hl with rfl | rfl
+    · simp [List.dropWhile_cons]
+    · simp [List.dropWhile_cons]
+  have e5 : inner.reverse.isEmpty = false := by
+    cases inner with
+    | nil => exact absurd rfl hine
+    | cons a as => simp
+  have e6 : (inner ++ '}' :: (lastJ ++ '\n' :: more)).drop (inner.reverse.reverse.length + 1) = lastJ ++ '\n' :: more := by
+    simp
+  unfold hdrIter
+  simp only [e1, e2, e3, e4, e5, Bool.false_eq_true, ↓reduceIte, e6, List.reverse_reverse]
+  rcases hl with rfl | rfl
+  · simp
+  · simp
+
+/-- blanks at the start of a continuation line -/
+def Blanks (w : List Char) : Prop := ∀ c ∈ w, c = ' ' ∨ c = '\t'
+
+theorem blanks_respace (w : List Char) (h : Blanks w) : ∀ c ∈ w, isReSpace c = true := by
+  intro c hc
+  rcases h c hc with e | e <;> subst e <;> decide
+
+/-- header lines: blanks and groups per line -/
+abbrev HLines := List (List Char × List ((List Char × List Char) × List Char))
+
+def HLinesOK (ls : HLines) : Prop := ∀ l ∈ ls, Blanks l.1 ∧ HLineOK l.2
+
+/-- the continuation lines as text: each starts on a new line -/
+def contText : HLines → List Char
+  | [] => []
+  | (w, gs) :: rest => '\n' :: (w ++ renderGroups gs) ++ contText rest
+
+/-- `hdrMore` consumes every continuation line and stops where `hdrIter` does -/
+theorem hdrMore_lines (ls : HLines) (hls : HLinesOK ls) (stop : List Char)
+    (hstop : hdrIter ('\n' :: stop) = none) :
+    ∀ fuel, fuel ≥ ls.length → hdrMore fuel (contText ls ++ '\n' :: stop) = contText ls := by
+  induction ls with
+  | nil =>
+    intro fuel _
+    cases fuel with
+    | zero => rfl
+    | succ n => simp [contText, hdrMore, hstop]
+  | cons l ls ih =>
+    intro fuel hf
+    obtain ⟨w, gs⟩ := l
+    obtain ⟨hw, hg⟩ := hls (w, gs) (by simp)
+    cases fuel with
+    | zero => simp at hf
+    | succ n =>
+      have hW : ∀ c ∈ '\n' :: w, isReSpace c = true := by
+        intro c hc
+        simp only [List.mem_cons] at hc
+        rcases hc with hc | hc
+        · subst hc; decide
+        · exact blanks_respace w hw c hc
+      have e : contText ((w, gs) :: ls) ++ '\n' :: stop
+          = ('\n' :: w) ++ renderGroups gs ++ (contText ls ++ '\n' :: stop) := by
+        simp [contText]
+      have hsplit : contText ls ++ '\n' :: stop = '\n' :: (match ls with
+          | [] => stop
+          | (w', gs') :: rest => (w' ++ renderGroups gs') ++ contText rest ++ '\n' :: stop) := by
+        cases ls with
+        | nil => simp [contText]
+        | cons l' rest => obtain ⟨w', gs'⟩ := l'; simp [contText]
+      rw [e, hsplit, hdrMore, hdrIter_line ('\n' :: w) _ gs hW hg]
+      simp only
+      rw [← hsplit, ih (fun x hx => hls x (by simp [hx])) n (by simp at hf; omega)]
+      simp [contText]
+
+/-- pairs of all lines -/
+def linePairs (ls : HLines) : List (List Char × List Char) := ls.flatMap (fun l => l.2.map (·.1))
+
+/-- add text to the junk of the last group -/
+def appendJunk : List ((List Char × List Char) × List Char) → List Char → List ((List Char × List Char) × List Char)
+  | [], _ => []
+  | [(kv, j)], w => [(kv, j ++ w)]
+  | g :: g2 :: gs, w => g :: appendJunk (g2 :: gs) w
+
+theorem renderGroups_appendJunk (gs : List ((List Char × List Char) × List Char)) (w : List Char) (hne : gs ≠ []) :
+    renderGroups (appendJunk gs w) = renderGroups gs ++ w := by
+  induction gs with
+  | nil => exact absurd rfl hne
+  | cons g gs' ih =>
+    cases gs' with
+    | nil => obtain ⟨kv, j⟩ := g; simp [appendJunk, renderGroups]
+    | cons g2 gs2 =>
+      obtain ⟨kv, j⟩ := g
+      simp only [appendJunk, renderGroups, List.append_assoc]
+      rw [ih (by simp)]
+      simp [renderGroups]
+
+theorem appendJunk_pairs (gs : List ((List Char × List Char) × List Char)) (w : List Char) :
+    (appendJunk gs w).map (·.1) = gs.map (·.1) := by
+  induction gs with
+  | nil => rfl
+  | cons g gs' ih =>
+    cases gs' with
+    | nil => obtain ⟨kv, j⟩ := g; rfl
+    | cons g2 gs2 => simp only [appendJunk, List.map_cons] at ih ⊢; rw [ih]
+
+theorem appendJunk_clean (gs : List ((List Char × List Char) × List Char)) (w : List Char)
+    (h : GroupsClean gs) (hw : NoOpenBrace w) : GroupsClean (appendJunk gs w) := by
+  induction gs with
+  | nil => intro g hg; cases hg
+  | cons g gs' ih =>
+    cases gs' with
+    | nil =>
+      obtain ⟨kv, j⟩ := g
+      intro x hx
+      simp only [appendJunk, List.mem_singleton] at hx
+      subst hx
+      obtain ⟨a, b, c⟩ := h (kv, j) (by simp)
+      refine ⟨a, b, ?_⟩
+      intro ch hch
+      simp only [List.mem_append] at hch
+      rcases hch with hch | hch
+      · exact c ch hch
+      · exact hw ch hch
+    | cons g2 gs2 =>
+      intro x hx
+      simp only [appendJunk, List.mem_cons] at hx
+      rcases hx with hx | hx
+      · subst hx; exact h _ (by simp)
+      · exact ih (fun y hy => h y (by simp [hy])) x (by simpa [appendJunk] using hx)
+
+/-- first line + continuation lines as ONE group list (line breaks and indentation become junk) -/
+def joinLines (gs : List ((List Char × List Char) × List Char)) : HLines → List ((List Char × List Char) × List Char)
+  | [] => gs
+  | (w, gs') :: rest => appendJunk gs ('\n' :: w) ++ joinLines gs' rest
+
+theorem joinLines_spec (ls : HLines) (hls : HLinesOK ls) :
+    ∀ (gs : List ((List Char × List Char) × List Char)), gs ≠ [] → GroupsClean gs →
+      renderGroups (joinLines gs ls) = renderGroups gs ++ contText ls ∧
+      (joinLines gs ls).map (·.1) = gs.map (·.1) ++ linePairs ls ∧
+      GroupsClean (joinLines gs ls) := by
+  induction ls with
+  | nil => intro gs _ hc; simp [joinLines, contText, linePairs, hc]
+  | cons l ls ih =>
+    intro gs hne hc
+    obtain ⟨w, gs'⟩ := l
+    obtain ⟨hw, hg'⟩ := hls (w, gs') (by simp)
+    obtain ⟨r1, r2, r3⟩ := ih (fun x hx => hls x (by simp [hx])) gs' hg'.ne hg'.clean
+    have hwb : NoOpenBrace ('\n' :: w) := by
+      intro c hcm
+      simp only [List.mem_cons] at hcm
+      rcases hcm with e | e
+      · subst e; decide
+      · rcases hw c e with e' | e' <;> subst e' <;> decide
+    have hrg : ∀ (a b : List ((List Char × List Char) × List Char)), renderGroups (a ++ b) = renderGroups a ++ renderGroups b := by
+      intro a b
+      induction a with
+      | nil => rfl
+      | cons x xs ihx => obtain ⟨kv, j⟩ := x; simp [renderGroups, ihx]
+    refine ⟨?_, ?_, ?_⟩
+    · simp only [joinLines, hrg, renderGroups_appendJunk gs _ hne, r1, contText]
+      simp
+    · simp only [joinLines, List.map_append, appendJunk_pairs, r2, linePairs, List.flatMap_cons]
+    · intro x hx
+      simp only [joinLines, List.mem_append] at hx
+      rcases hx with hx | hx
+      · exact appendJunk_clean gs _ hc hwb x hx
+      · exact r3 x hx
+
+/-- the declarative specification of `parseHeaders`: a directive
+    `shoot: headers={K₁:v₁},{K₂:v₂}` continued on any number of following lines that start (after
+    blanks) with `{` — each line ending in `}` or `},` — means all the pairs, in order; it ends
+    where the next line does not continue it -/
+theorem parseHeaders_render (w0 : List Char) (gs : List ((List Char × List Char) × List Char)) (ls : HLines)
+    (stop : List Char)
+    (hw0 : Blanks w0) (hg : HLineOK gs) (hls : HLinesOK ls) (hstop : hdrIter ('\n' :: stop) = none) :
+    parseHeaders (shootColon ++ ' ' :: (headersEq ++ (w0 ++ renderGroups gs ++ (contText ls ++ '\n' :: stop))))
+      = gs.map (·.1) ++ linePairs ls := by
+  have hgroup : hdrGroup (w0 ++ renderGroups gs ++ (contText ls ++ '\n' :: stop))
+      = some (w0 ++ renderGroups gs ++ contText ls) := by
+    have hsplit : contText ls ++ '\n' :: stop = '\n' :: (match ls with
+        | [] => stop
+        | (w', gs') :: rest => (w' ++ renderGroups gs') ++ contText rest ++ '\n' :: stop) := by
+      cases ls with
+      | nil => simp [contText]
+      | cons l' rest => obtain ⟨w', gs'⟩ := l'; simp [contText]
+    unfold hdrGroup
+    rw [hsplit, hdrIter_line w0 _ gs (blanks_respace w0 hw0) hg]
+    simp only
+    rw [← hsplit, hdrMore_lines ls hls stop hstop _ (by
+      have : (contText ls).length ≥ ls.length := by
+        clear hsplit hls
+        induction ls with
+        | nil => simp
+        | cons l rest ih => obtain ⟨w, g⟩ := l; simp [contText] at ih ⊢; omega
+      simp [List.length_append]; omega)]
+  have e1 : stripPrefix shootColon (shootColon ++ ' ' :: (headersEq ++ (w0 ++ renderGroups gs ++ (contText ls ++ '\n' :: stop))))
+      = some (' ' :: (headersEq ++ (w0 ++ renderGroups gs ++ (contText ls ++ '\n' :: stop)))) :=
+    stripPrefix_self_append _ _
+  have e2 : stripPrefix headersEq (headersEq ++ (w0 ++ renderGroups gs ++ (contText ls ++ '\n' :: stop)))
+      = some (w0 ++ renderGroups gs ++ (contText ls ++ '\n' :: stop)) := stripPrefix_self_append _ _
+  have hsp : isWord ' ' = false := by decide
+  have hfind : findShootHeaders (shootColon ++ ' ' :: (headersEq ++ (w0 ++ renderGroups gs ++ (contText ls ++ '\n' :: stop))))
+      = some (w0 ++ renderGroups gs ++ contText ls) := by
+    have hs : shootColon ++ ' ' :: (headersEq ++ (w0 ++ renderGroups gs ++ (contText ls ++ '\n' :: stop)))
+        = 's' :: (['h', 'o', 'o', 't', ':'] ++ ' ' :: (headersEq ++ (w0 ++ renderGroups gs ++ (contText ls ++ '\n' :: stop)))) := by
+      simp [shootColon]
+    rw [hs, findShootHeaders, ← hs, e1]
+    simp only [findHeadersArg, hsp, Bool.not_false, ↓reduceIte, e2, hgroup]
+  obtain ⟨r1, r2, r3⟩ := joinLines_spec ls hls gs hg.ne hg.clean
+  unfold parseHeaders
+  rw [hfind]
+  simp only
+  have hb : NoOpenBrace w0 := by
+    intro c hc
+    rcases hw0 c hc with e | e <;> subst e <;> decide
+  have := parseKV_render w0 (joinLines gs ls) hb r3
+  rw [r1, r2] at this
+  simpa [List.append_assoc] using this
 
 end ShootVerif.Rest
